@@ -1,22 +1,34 @@
 PROP = dict(
     harness="c15", level="fault_enumeration", exhaustive_capable=True,
     quick=dict(cases=3200, max_size=60, workers=16, extra_args=["--instances=2"]),
+    # LeakSanitizer's per-plan check walks every chunk including the quarantined ones: a small quarantine keeps it cheap (a stale arena
+    # block is used or released again within the same plan, long before 32 MiB of later frees push it out)
+    env=dict(ASAN_OPTIONS="detect_leaks=1:abort_on_error=0:exitcode=99:allocator_may_return_null=1:detect_stack_use_after_return=0:quarantine_size_mb=32"),
     thorough=dict(cases=96000, max_size=90, workers=16, timeout=7200, extra_args=["--instances=16", "--lsan=8"]),
     rule=("one case = (workload, instantiation, fault plan). Workloads: W1 x86-64/AArch64 Assembler with labels, 1-3 sections, "
           "embed_label/embed_label_delta/absolute call+jmp (relocations, address table), const pool, flatten, resolve_cross_section_fixups, "
           "relocate_to_base, copy_flattened_data (also after reinit()); W2 the same programs through x86/a64 Builder + finalize; W3 x86/a64 "
           "Compiler functions with 3-32 virtual registers (spills), loops, branches, invoke, constants, stack slots, finalize; W4 "
           "JitRuntime::add/release, JitAllocator alloc/write/shrink/release/query with option sets, VirtMem alloc/protect/dual mapping; "
-          "W5 ArenaVector/ArenaHash/ArenaString/String/ConstPool/ArenaBitSet/Arena::dup sharing one Arena. Fault plans: the k-th arena "
+          "W5 ArenaVector/ArenaHash/ArenaString/String/ConstPool/ArenaBitSet/Arena::dup sharing one Arena. HISTORIES (W1-W3, W5; cfg[8]): "
+          "generation A (a prefix of the program) -> soft reset (CodeHolder::reset(kSoft)+init+attach or CodeHolder::reinit(); W5: every "
+          "container reset + Arena::reset(kSoft)) -> larger generation B on the SAME objects, all inside the fault window, optionally with "
+          "growing requests (Builder/Compiler embed() of 135000 -> 270000 -> 530000 bytes = node-arena requests larger than the kept block, "
+          "long named labels, a growing ConstPool, W5 alloc_oneshot of 3x/5x/7x the block size); W5 also has history STEPS (soft reset, "
+          "alloc_oneshot/alloc_oneshot_zeroed/dup/ArenaString of 1 KiB-400 KB incl. 'twice the largest so far', ConstPool/ArenaVector/ArenaHash "
+          "growth bursts). Fault plans: the k-th arena "
           "request (hook H1), the k-th malloc/realloc/calloc, the k-th mmap/mprotect/ftruncate/memfd_create/shm_open (linker --wrap) - "
-          "enumerated for EVERY k of fixed instantiations, plus 'every request from k on', 'every request issued by one function' and "
+          "enumerated for EVERY k of fixed instantiations (for the fixed histories: every heap k of the whole history, every arena k of the "
+          "post-reset phase, 'every request after the soft reset fails'), plus 'every request from k on', 'every request issued by one function' and "
           "random multi-failure plans on generated instantiations. A case is non-trivial when its fault was actually injected and made "
           "an API call return an error; distinct = distinct case text"),
     assumptions=["ASan+UBSan build with ASMJIT_ASSERT active; -DASMJIT_VERIF arena hook H1 (add-only) is the only change to the library",
                  "heap / virtual-memory faults are injected only into calls made from AsmJit's own objects (linker --wrap); libc/libstdc++ internals never fail",
                  "every AsmJit return value is checked and the workload stops at the first error (a 'continue after the error' mode exists for W1/W5 where every later call validates its arguments)",
                  "process-wide one-time probes of virtmem.cpp (hardened runtime, memfd/shm strategy) are warmed up before faults are armed",
-                 "a faulted run that reports success must produce byte-identical output; constant-pool layout in W5 is judged by content (a failed gap record legitimately changes the layout)"],
+                 "a faulted run that reports success must produce byte-identical output; constant-pool layout in W5 is judged by content (a failed gap record legitimately changes the layout)",
+                 "arena integrity is read from the public members Arena::_first_block/_dynamic_blocks: every listed block must be a live block obtained through the wrapped malloc (checked after the faulted run and after the re-run, before anything is destroyed)",
+                 "ASan quarantine is 32 MiB (LeakSanitizer's per-plan check walks quarantined chunks): a stale block is re-used or released again within the same plan"],
 )
 META = dict(
     engine="rapidcheck + deterministic enumeration (vh_enum)",
@@ -24,7 +36,9 @@ META = dict(
     level_text=("Fault enumeration: for fixed instantiations of each of the five workloads (both architectures, four JIT allocator option sets) "
                 "EVERY arena, heap and virtual-memory request position k of a clean run is failed once (exhaustive for those instantiations), "
                 "plus persistent failures per requesting function and from position k on; rapidcheck adds generated instantiations x random "
-                "single/multi-failure plans. Each plan is judged by: no crash/ASan/UBSan/assert/exception; error reported or byte-identical "
+                "single/multi-failure plans. Histories put a soft reset / reinit and the re-emission of a larger program into the fault window "
+                "(arenas with kept blocks meet requests that exceed them while malloc fails). Each plan is judged by: no crash/ASan/UBSan/assert/"
+                "exception; every arena references only live heap blocks; error reported or byte-identical "
                 "output; reset + fault-free re-run on the SAME objects byte-identical to a never-faulted run; no leaked heap block, mapping or "
                 "descriptor (own accounting of wrapped calls) and a clean LeakSanitizer recoverable check after every plan."),
     level_note=("Exhaustive only for the enumerated instantiations (exhaustive=true in the evidence means that share was completed). Equivalence of "
